@@ -15,9 +15,7 @@ impl Clone for Key { fn clone(&self) -> (r: Key) ensures r == *self { Key { id: 
 pub struct Formatter { pub id: u8 }
 #[verifier::external_body] pub struct KeyPath { _p: u8 }
 #[verifier::external_body] pub struct Locale { _p: u8 }
-#[verifier::external_body] pub struct RangesBody { _p: u8 }
-// the part of `Ranges` this function touches: the count variable; the typed branch vectors are opaque
-pub struct Ranges { pub count_key: Key, pub inner: RangesBody }
+pub use core::ops::Bound;
 // RefCell<ForeignKey>: after resolution it holds the referenced value
 #[verifier::external_body] pub struct ForeignKeyCell { _p: u8 }
 #[verifier::external_body] pub struct ForeignKey { _p: u8 }
@@ -39,6 +37,10 @@ pub type Result<T> = core::result::Result<T, Box<Error>>;
 //@@ plural_rule_type_enum
 //@@ plural_form_enum
 //@@ plurals_struct
+//@@ range_enum
+pub type RangesInner<T> = Vec<(Range<T>, ParsedValue)>;
+//@@ untyped_enum
+//@@ ranges_struct
 //@@ parsed_value_enum
 
 pub open spec fn var_set(k: InterpolOrLit) -> Set<Key> { match k { InterpolOrLit::Interpol(i) => i.variables@.dom(), InterpolOrLit::Lit(_) => Set::empty() } }
@@ -46,8 +48,6 @@ pub open spec fn comp_set(k: InterpolOrLit) -> Set<Key> { match k { InterpolOrLi
 
 // what the unverified parts contribute (ranges: the values of their branches; foreign keys: the
 // referenced value after substitution)
-pub uninterp spec fn ranges_has_var(r: Ranges, k: Key) -> bool;
-pub uninterp spec fn ranges_has_comp(r: Ranges, k: Key) -> bool;
 pub uninterp spec fn fk_has_var(c: ForeignKeyCell, k: Key) -> bool;
 pub uninterp spec fn fk_has_comp(c: ForeignKeyCell, k: Key) -> bool;
 pub uninterp spec fn fk_value(c: ForeignKeyCell) -> ParsedValue;
@@ -61,7 +61,19 @@ pub open spec fn has_var(p: ParsedValue, k: Key) -> bool
         ParsedValue::Variable { key, formatter } => key == k,
         ParsedValue::Component { key, inner } => has_var(*inner, k),
         ParsedValue::Bloc(v) => exists|i: int| 0 <= i < v.len() && has_var(#[trigger] v[i], k),
-        ParsedValue::Ranges(r) => r.count_key == k || ranges_has_var(r, k),
+        // the count variable of a range, and whatever occurs in the value of any of its branches
+        ParsedValue::Ranges(r) => r.count_key == k || match r.inner {
+            UntypedRangesInner::I8(v) => exists|i: int| 0 <= i < v.len() && has_var((#[trigger] v[i]).1, k),
+            UntypedRangesInner::I16(v) => exists|i: int| 0 <= i < v.len() && has_var((#[trigger] v[i]).1, k),
+            UntypedRangesInner::I32(v) => exists|i: int| 0 <= i < v.len() && has_var((#[trigger] v[i]).1, k),
+            UntypedRangesInner::I64(v) => exists|i: int| 0 <= i < v.len() && has_var((#[trigger] v[i]).1, k),
+            UntypedRangesInner::U8(v) => exists|i: int| 0 <= i < v.len() && has_var((#[trigger] v[i]).1, k),
+            UntypedRangesInner::U16(v) => exists|i: int| 0 <= i < v.len() && has_var((#[trigger] v[i]).1, k),
+            UntypedRangesInner::U32(v) => exists|i: int| 0 <= i < v.len() && has_var((#[trigger] v[i]).1, k),
+            UntypedRangesInner::U64(v) => exists|i: int| 0 <= i < v.len() && has_var((#[trigger] v[i]).1, k),
+            UntypedRangesInner::F32(v) => exists|i: int| 0 <= i < v.len() && has_var((#[trigger] v[i]).1, k),
+            UntypedRangesInner::F64(v) => exists|i: int| 0 <= i < v.len() && has_var((#[trigger] v[i]).1, k),
+        },
         ParsedValue::Plurals(pl) => pl.count_key == k || has_var(*pl.other, k)
             || exists|f: PluralForm| pl.forms@.contains_key(f) && has_var(#[trigger] pl.forms@[f], k),
         ParsedValue::ForeignKey(c) => fk_has_var(c, k),
@@ -75,7 +87,18 @@ pub open spec fn has_comp(p: ParsedValue, k: Key) -> bool
     match p {
         ParsedValue::Component { key, inner } => key == k || has_comp(*inner, k),
         ParsedValue::Bloc(v) => exists|i: int| 0 <= i < v.len() && has_comp(#[trigger] v[i], k),
-        ParsedValue::Ranges(r) => ranges_has_comp(r, k),
+        ParsedValue::Ranges(r) => match r.inner {
+            UntypedRangesInner::I8(v) => exists|i: int| 0 <= i < v.len() && has_comp((#[trigger] v[i]).1, k),
+            UntypedRangesInner::I16(v) => exists|i: int| 0 <= i < v.len() && has_comp((#[trigger] v[i]).1, k),
+            UntypedRangesInner::I32(v) => exists|i: int| 0 <= i < v.len() && has_comp((#[trigger] v[i]).1, k),
+            UntypedRangesInner::I64(v) => exists|i: int| 0 <= i < v.len() && has_comp((#[trigger] v[i]).1, k),
+            UntypedRangesInner::U8(v) => exists|i: int| 0 <= i < v.len() && has_comp((#[trigger] v[i]).1, k),
+            UntypedRangesInner::U16(v) => exists|i: int| 0 <= i < v.len() && has_comp((#[trigger] v[i]).1, k),
+            UntypedRangesInner::U32(v) => exists|i: int| 0 <= i < v.len() && has_comp((#[trigger] v[i]).1, k),
+            UntypedRangesInner::U64(v) => exists|i: int| 0 <= i < v.len() && has_comp((#[trigger] v[i]).1, k),
+            UntypedRangesInner::F32(v) => exists|i: int| 0 <= i < v.len() && has_comp((#[trigger] v[i]).1, k),
+            UntypedRangesInner::F64(v) => exists|i: int| 0 <= i < v.len() && has_comp((#[trigger] v[i]).1, k),
+        },
         ParsedValue::Plurals(pl) => has_comp(*pl.other, k)
             || exists|f: PluralForm| pl.forms@.contains_key(f) && has_comp(#[trigger] pl.forms@[f], k),
         ParsedValue::ForeignKey(c) => fk_has_comp(c, k),
@@ -114,15 +137,33 @@ impl InterpolOrLit {
             *final(self) == InterpolOrLit::Interpol(*final(r)),
     { unimplemented!() }
 }
+/// a branch list contributes what the values of its branches contribute
+pub open spec fn inner_covers<T>(old_k: InterpolOrLit, new_k: InterpolOrLit, v: Seq<(Range<T>, ParsedValue)>) -> bool {
+    &&& forall|k: Key| var_set(old_k).contains(k) || (exists|i: int| 0 <= i < v.len() && has_var((#[trigger] v[i]).1, k)) ==> #[trigger] var_set(new_k).contains(k)
+    &&& forall|k: Key| comp_set(old_k).contains(k) || (exists|i: int| 0 <= i < v.len() && has_comp((#[trigger] v[i]).1, k)) ==> #[trigger] comp_set(new_k).contains(k)
+}
+pub open spec fn ranges_covers(old_k: InterpolOrLit, new_k: InterpolOrLit, r: Ranges) -> bool {
+    match r.inner {
+        UntypedRangesInner::I8(v) => inner_covers(old_k, new_k, v@),
+        UntypedRangesInner::I16(v) => inner_covers(old_k, new_k, v@),
+        UntypedRangesInner::I32(v) => inner_covers(old_k, new_k, v@),
+        UntypedRangesInner::I64(v) => inner_covers(old_k, new_k, v@),
+        UntypedRangesInner::U8(v) => inner_covers(old_k, new_k, v@),
+        UntypedRangesInner::U16(v) => inner_covers(old_k, new_k, v@),
+        UntypedRangesInner::U32(v) => inner_covers(old_k, new_k, v@),
+        UntypedRangesInner::U64(v) => inner_covers(old_k, new_k, v@),
+        UntypedRangesInner::F32(v) => inner_covers(old_k, new_k, v@),
+        UntypedRangesInner::F64(v) => inner_covers(old_k, new_k, v@),
+    }
+}
+
+// N1: hoisted nested fn of Ranges::get_keys_inner
+//@@ ranges_inner
+
 impl Ranges {
-    // assumed contract of the (unverified) loop over the typed branch vectors
-    #[verifier::external_body]
-    pub fn get_keys_inner(&self, key_path: &mut KeyPath, keys: &mut InterpolOrLit) -> (r: Result<()>)
-        ensures r is Ok ==> (forall|k: Key| var_set(*old(keys)).contains(k) || ranges_has_var(*self, k) ==> #[trigger] var_set(*final(keys)).contains(k))
-            && (forall|k: Key| comp_set(*old(keys)).contains(k) || ranges_has_comp(*self, k) ==> #[trigger] comp_set(*final(keys)).contains(k)),
-    { unimplemented!() }
-    #[verifier::external_body]
-    pub fn get_type(&self) -> RangeType { unimplemented!() }
+//@@ ranges_get_keys_inner
+
+//@@ ranges_get_type
 }
 impl ForeignKeyCell {
     #[verifier::external_body]
